@@ -1,5 +1,5 @@
 """C01 — Same Day, then 30-day, then Section 104 (structural clauses)."""
-from mir import Terms, parse_callee, show, op_place, op_const, place_proj, subterms
+from mir import Terms, parse_callee, show, op_place, op_const, place_proj, subterms, is_decimal_arith_assign
 from flow import root_of_operand, is_slice_sort
 from roles import Roles, RULES, agg_fields, guards_of, truth, is_agg
 import panics as P
@@ -95,44 +95,50 @@ def dayloop_order(R, rep):
     d = R.require("dayloop")
     c = R.require("cascade")
     F = R.F
-    # classify callees of the day loop
-    pooling = None
-    splith = None
-    for i, t in d.calls():
-        cb = F.bodies.get(t["callee"])
-        if cb is None or cb.id == c.id:
-            continue
-        ws = R.field_writes("cgt_core::models::Section104Holding", "quantity", [cb] + [F.bodies[x] for x in F.children(cb.id)])
-        kinds = {w[2] for w in ws}
-        if "AddAssign" in kinds:
-            pooling = (i, t, cb)
-        if "MulAssign" in kinds or "DivAssign" in kinds:
-            splith = (i, t, cb)
-    adds = [(i, t) for i, t in d.calls() if t["callee"].endswith("AcquisitionLedger::add_acquisition")]
-    casc = [(i, t) for i, t in d.calls() if t["callee"] == c.id]
-    missing = [n for n, v in (("add_acquisition", adds), ("cascade", casc), ("pooling", pooling), ("split handler", splith)) if not v]
+    rg = R.region(d)
+    pos = {}
+    for it in rg.items:
+        cal = it["term"]["callee"]
+        tag = None
+        if cal.endswith("AcquisitionLedger::add_acquisition"):
+            tag = "add the day's acquisitions"
+        elif cal == c.id:
+            tag = "match the day's disposals"
+        else:
+            k = is_decimal_arith_assign(cal)
+            if k and it["term"]["args"]:
+                tgt = R._ref_target(it["body"], op_place(it["term"]["args"][0]))
+                if tgt == ("cgt_core::models::Section104Holding", "quantity"):
+                    if k == "AddAssign":
+                        tag = "pool unmatched acquisitions"
+                    elif k in ("MulAssign", "DivAssign"):
+                        tag = "apply splits"
+        if tag:
+            pos.setdefault(tag, set()).add(it["root_bb"])
+    order = ["add the day's acquisitions", "match the day's disposals", "pool unmatched acquisitions", "apply splits"]
+    missing = [n for n in order if n not in pos]
     if missing:
-        rep.unresolved("R2", "day-phases", f"day loop {d.short} does not call: {missing}")
+        rep.unresolved("R2", "day-phases", f"day loop {d.short} (with its helpers) never reaches: {missing}")
         return
-    outer = max((bl for h, bl in d.loops() if casc[0][0] in bl), key=len)
+    outer = max((bl for h, bl in d.loops() if any(bb in bl for bb in pos["match the day's disposals"])), key=len, default=None)
+    if outer is None:
+        rep.unresolved("R2", "day-loop", "the cascade is not called inside a loop")
+        return
     outer_h = [h for h, bl in d.loops() if bl == outer][0]
 
-    def inner_header(bb):
-        ls = [(h, bl) for h, bl in d.loops() if bb in bl and bl != outer and bl < outer]
-        if not ls:
-            return None
-        return min(ls, key=lambda x: len(x[1]))[0]
+    def anchor(bb):
+        """the block that stands for a phase: the header of the innermost loop strictly inside the day loop, else the block"""
+        ls = [(h, bl) for h, bl in d.loops() if bb in bl and bl < outer]
+        return min(ls, key=lambda x: len(x[1]))[0] if ls else bb
 
-    phases = [("add the day's acquisitions", adds[0][0]), ("match the day's disposals", casc[0][0]),
-              ("pool unmatched acquisitions", pooling[0]), ("apply splits", splith[0])]
-    hs = [(n, inner_header(bb)) for n, bb in phases]
-    if any(h is None for _, h in hs):
-        rep.unresolved("R2", "phase-loops", f"a day phase is not in its own inner loop: {[(n, h) for n, h in hs]}")
-        return
-    for (n1, h1), (n2, h2) in zip(hs, hs[1:]):
-        fwd = h2 in d.reach_from(h1, removed_blocks=(outer_h,)) and h1 != h2
-        back = h1 in d.reach_from(h2, removed_blocks=(outer_h,))
-        ok = fwd and not back and d.dominates(h1, h2)
+    anchors = {n: {anchor(bb) for bb in pos[n]} for n in order}
+    for n1, n2 in zip(order, order[1:]):
+        ok = True
+        for a1 in anchors[n1]:
+            for a2 in anchors[n2]:
+                fwd = a1 != a2 and a2 in d.reach_from(a1, removed_blocks=(outer_h,))
+                back = a1 in d.reach_from(a2, removed_blocks=(outer_h,))
+                ok = ok and fwd and not back
         rep.ob("R2", f"dayloop:{n1} ≺ {n2}", ok, f"within one day: {n1}, then {n2}" if ok else
                f"day-loop order broken: `{n2}` does not strictly follow `{n1}` within one date", d.loc(), key=f"R2:dayloop:{n1}≺{n2}")
 
